@@ -1,8 +1,348 @@
 (** Proofs about the completion-engine model (property C18). *)
 From ClapModel Require Import Base.Bytes Base.Machine Base.Utf8.
 From ClapModel Require Import Parse.Cmd Parse.Build Parse.Valid Complete.EngineModel.
-From Coq Require Import ZArith Lia.
+From Coq Require Import ZArith Lia Bool.
 From RecordUpdate Require Import RecordSet.
 Import RecordSetNotations.
 Open Scope N_scope.
 
+Ltac split_andb :=
+  repeat match goal with
+         | H : _ && _ = true |- _ => apply andb_prop in H; destruct H
+         end.
+
+(** * The built tree: every node passed [assert_app] *)
+Inductive tree_all (P : cmd -> Prop) : cmd -> Prop :=
+| tree_all_node c : P c -> Forall (tree_all P) (c_subs c) -> tree_all P c.
+
+Inductive reach : cmd -> cmd -> Prop :=
+| reach_refl c : reach c c
+| reach_step c s d : In s (c_subs c) -> reach s d -> reach c d.
+
+Lemma tree_all_here P c : tree_all P c -> P c.
+Proof. intros H; inversion H; assumption. Qed.
+
+Lemma tree_all_sub P c s : tree_all P c -> In s (c_subs c) -> tree_all P s.
+Proof. intros H Hin. inversion H as [c' _ Hs]; subst. rewrite Forall_forall in Hs. auto. Qed.
+
+Lemma tree_all_reach P c d : reach c d -> tree_all P c -> tree_all P d.
+Proof. induction 1; intros Ht; [assumption|]. apply IHreach. eapply tree_all_sub; eauto. Qed.
+
+Lemma reach_trans a b c : reach a b -> reach b c -> reach a c.
+Proof. induction 1; intros; [assumption|]. econstructor; eauto. Qed.
+
+Definition node_ok (c : cmd) : Prop := assert_app c = true.
+
+Lemma c_subs_set_subs c l : c_subs (c <| c_subs := l |>) = l.
+Proof. destruct c; reflexivity. Qed.
+Lemma assert_app_c_args_set_subs c l : c_args (c <| c_subs := l |>) = c_args c.
+Proof. destruct c; reflexivity. Qed.
+
+(** what [assert_app] guarantees for the engine depends only on the arguments of the node *)
+Definition args_ok (c : cmd) : Prop := forall a, In a (c_args c) -> assert_arg a = true.
+
+Lemma assert_app_args_ok c : assert_app c = true -> args_ok c.
+Proof.
+  unfold assert_app. intros H a Ha. split_andb.
+  match goal with
+  | H : forallb _ (c_args c) = true |- _ => rewrite forallb_forall in H; specialize (H a Ha)
+  end.
+  split_andb. assumption.
+Qed.
+
+Lemma build_list_ok rec (IH : forall c b, rec c = BOk b -> tree_all args_ok b) :
+  forall l subs, build_list rec l = Some (Some subs) -> Forall (tree_all args_ok) subs.
+Proof.
+  induction l as [|s t IHl]; intros subs Hs; cbn in Hs.
+  - inversion Hs; constructor.
+  - destruct (rec s) eqn:Hb; try discriminate.
+    destruct (build_list rec t) as [[t'|]|] eqn:Ht; try discriminate.
+    inversion Hs; subst. constructor; [eapply IH; eauto | apply IHl; reflexivity].
+Qed.
+
+Lemma build_node_ok rec (IH : forall c b, rec c = BOk b -> tree_all args_ok b) c1 b :
+  build_node rec c1 = BOk b -> tree_all args_ok b.
+Proof.
+  unfold build_node. destruct (negb (assert_app c1)) eqn:Ha; [discriminate|].
+  apply negb_false_iff in Ha.
+  destruct (build_list rec (c_subs c1)) as [[subs|]|] eqn:Hs; try discriminate.
+  intros H; inversion H; subst. constructor.
+  - intros a Hin. rewrite assert_app_c_args_set_subs in Hin. eapply assert_app_args_ok; eauto.
+  - rewrite c_subs_set_subs. eapply build_list_ok; eauto.
+Qed.
+
+(* conversion must unfold [build_full] (one iota step) before it looks into [build_node] *)
+Local Strategy 100 [build_node build_self_x assert_app].
+Lemma build_full_ok : forall f c b, build_full f c = BOk b -> tree_all args_ok b.
+Proof.
+  induction f as [|f IH]; intros c b H; [discriminate|].
+  cbn [build_full] in H. eapply build_node_ok; eauto.
+Qed.
+
+Lemma assert_arg_num a : assert_arg a = true -> a_num a <> None.
+Proof.
+  unfold assert_arg. intros H. split_andb.
+  destruct (a_num a); [discriminate|]. cbn in *. discriminate.
+Qed.
+
+Lemma args_ok_num c a : args_ok c -> In a (c_args c) -> a_num a <> None.
+Proof. intros H Ha. apply assert_arg_num. auto. Qed.
+
+(** * Totality *)
+
+Lemma find_some_in {A} (f : A -> bool) l x : List.find f l = Some x -> In x l /\ f x = true.
+Proof. apply find_some. Qed.
+
+Lemma find_pos_in c i p : find_pos c i = Some p -> In p (c_args c).
+Proof.
+  unfold find_pos, positionals. intros H. apply find_some in H. destruct H as [H _].
+  apply filter_In in H. tauto.
+Qed.
+
+Lemma find_short_visible_in c ch o : find_short_visible c ch = Some o -> In o (c_args c).
+Proof. unfold find_short_visible. intros H. apply find_some in H. tauto. Qed.
+
+Lemma find_long_visible_in c l o : find_long_visible c l = Some o -> In o (c_args c).
+Proof. unfold find_long_visible. intros H. apply find_some in H. tauto. Qed.
+
+Lemma possible_values_some tbl a : a_num a <> None -> possible_values tbl a <> None.
+Proof.
+  unfold possible_values. destruct (a_num a); [|tauto]. intros _.
+  destruct (negb _); [discriminate|]. destruct (lookup_pv _ _); [discriminate|].
+  destruct (a_vp a) as [[]|]; discriminate.
+Qed.
+
+Lemma complete_arg_value_some tbl v a : a_num a <> None -> complete_arg_value tbl v a <> None.
+Proof.
+  intros H. unfold complete_arg_value.
+  destruct (match rsplit_delimiter v (a_delim a) with Some (p, v0) => (Some p, v0) | None => (None, v) end).
+  pose proof (possible_values_some tbl a H). destruct (possible_values tbl a); [discriminate|tauto].
+Qed.
+
+(** [parse_shortflags]: no panic on a validated node, and the fuel always suffices *)
+Lemma next_flag_shorter u f u' : next_flag u = Some (f, u') -> (length u' < length u)%nat.
+Proof.
+  unfold next_flag. destruct u as [|b t]; [discriminate|].
+  destruct (utf8_step (b :: t)) as [[c n]|] eqn:E; intros H; inversion H; subst.
+  - apply utf8_step_len in E. rewrite skipn_length. cbn [length] in *. lia.
+  - cbn. lia.
+Qed.
+
+Lemma parse_shortflags_loop_safe c : args_ok c -> forall fuel short leading,
+  (length short < fuel)%nat ->
+  parse_shortflags_loop fuel c short leading <> SFPanic /\
+  parse_shortflags_loop fuel c short leading <> SFFuel.
+Proof.
+  intros Hok. induction fuel as [|f IH]; intros short leading Hlen; [lia|].
+  cbn [parse_shortflags_loop].
+  destruct (next_flag short) as [[[ch|] short']|] eqn:E; try (split; discriminate).
+  apply next_flag_shorter in E.
+  destruct (find_short_visible c ch) as [o|] eqn:Eo.
+  - pose proof (args_ok_num c o Hok (find_short_visible_in _ _ _ Eo)) as Hn.
+    destruct (a_num o) as [r|]; [|tauto].
+    destruct (r_takes_values r); [split; discriminate|]. apply IH. lia.
+  - apply IH. lia.
+Qed.
+
+Lemma parse_shortflags_safe c short : args_ok c ->
+  parse_shortflags c short <> SFPanic /\ parse_shortflags c short <> SFFuel.
+Proof. intros H. apply parse_shortflags_loop_safe; [assumption|lia]. Qed.
+
+Lemma parse_shortflags_loop_opt c : forall fuel short leading lead o rest,
+  parse_shortflags_loop fuel c short leading = SFOk lead (Some o) rest -> In o (c_args c).
+Proof.
+  induction fuel as [|f IH]; intros short leading lead o rest H; [discriminate|].
+  cbn [parse_shortflags_loop] in H.
+  destruct (next_flag short) as [[[ch|] short']|]; try discriminate.
+  destruct (find_short_visible c ch) as [o'|] eqn:Eo.
+  - destruct (a_num o') as [r|]; [|discriminate].
+    destruct (r_takes_values r).
+    + inversion H; subst. eapply find_short_visible_in; eauto.
+    + eapply IH; eauto.
+  - eapply IH; eauto.
+Qed.
+
+(** the state invariant: an option awaiting values is an argument of a validated node *)
+Definition st_ok (st : pstate) : Prop := match st with Opt o _ => a_num o <> None | _ => True end.
+
+Definition is_cpanic (r : cres) : Prop := exists s, r = CPanic s.
+Definition is_cfuel (r : cres) : Prop := r = CFuel.
+Definition bad (r : cres) : Prop := is_cpanic r \/ is_cfuel r.
+
+Lemma complete_option_good tbl w c : args_ok c -> ~ bad (complete_option tbl w c).
+Proof.
+  intros Hok. unfold bad, is_cpanic, is_cfuel, complete_option.
+  destruct (is_empty w); [intros [[s H]|H]; discriminate|].
+  destruct (is_stdio w); [intros [[s H]|H]; discriminate|].
+  destruct (is_escape w); [intros [[s H]|H]; discriminate|].
+  destruct (to_long w) as [[[flag u] value]|].
+  - destruct u; [|intros [[s H]|H]; discriminate].
+    destruct value as [v|]; [|intros [[s H]|H]; discriminate].
+    destruct (List.find _ (c_args c)) as [a|] eqn:Ea; [|intros [[s H]|H]; discriminate].
+    apply find_some in Ea. destruct Ea as [Ea _].
+    pose proof (complete_arg_value_some tbl v a (args_ok_num _ _ Hok Ea)).
+    destruct (complete_arg_value tbl v a); [intros [[s H']|H']; discriminate|tauto].
+  - destruct (to_short w) as [short|]; [|intros [[s H]|H]; discriminate].
+    destruct (negb (sf_is_negative_number short)); [|intros [[s H]|H]; discriminate].
+    destruct (parse_shortflags_safe c short Hok) as [Hp Hf].
+    destruct (parse_shortflags c short) as [| |leading [o|] short'] eqn:E; try tauto.
+    + unfold parse_shortflags in E. apply parse_shortflags_loop_opt in E.
+      destruct (match next_flag short' with
+                | Some (FOk ch, s2) => if ch =? EQ then (true, s2) else (false, short')
+                | _ => (false, short') end) as [he s2].
+      pose proof (complete_arg_value_some tbl (match next_value_os s2 with Some v => v | None => [] end) o
+                    (args_ok_num _ _ Hok E)).
+      destruct (complete_arg_value tbl _ o); [intros [[s H']|H']; discriminate|tauto].
+    + destruct (utf8_valid w); intros [[s H]|H]; discriminate.
+Qed.
+
+Lemma cbind_good r f : ~ bad r -> (forall l, ~ bad (f l)) -> ~ bad (cbind r f).
+Proof. intros Hr Hf. destruct r; cbn; auto. Qed.
+
+Lemma of_opt_good s o : o <> None -> ~ bad (of_opt s o).
+Proof. destruct o; [|tauto]. intros _ [[x H]|H]; discriminate. Qed.
+
+Lemma cok_good l : ~ bad (COk l).
+Proof. intros [[x H]|H]; discriminate. Qed.
+
+Lemma complete_arg_value_done_good tbl w c pi : args_ok c -> ~ bad (complete_arg_value_done tbl w c pi).
+Proof.
+  intros Hok. unfold complete_arg_value_done. apply cbind_good.
+  - destruct (find_pos c pi) as [p|] eqn:E; [|apply cok_good].
+    apply of_opt_good. apply complete_arg_value_some. eapply args_ok_num; eauto. eapply find_pos_in; eauto.
+  - intros posv. apply cbind_good; [apply complete_option_good; assumption|]. intros; apply cok_good.
+Qed.
+
+Lemma complete_arg_good tbl w c pi st : args_ok c -> st_ok st -> ~ bad (complete_arg tbl w c pi st).
+Proof.
+  intros Hok Hst. destruct st as [|idx cnt|o cnt]; cbn [complete_arg].
+  - apply complete_arg_value_done_good; assumption.
+  - destruct (find_pos c pi) as [p|] eqn:E; [|apply cok_good].
+    apply cbind_good.
+    + apply of_opt_good. apply complete_arg_value_some. eapply args_ok_num; eauto. eapply find_pos_in; eauto.
+    + intros posv. apply cbind_good; [|intros; apply cok_good].
+      destruct (match a_num p with Some r => vmin r <=? cnt | None => false end);
+        [apply complete_option_good; assumption|apply cok_good].
+  - apply cbind_good.
+    + apply of_opt_good. apply complete_arg_value_some. exact Hst.
+    + intros optv. apply cbind_good; [|intros; apply cok_good].
+      destruct (_ <? cnt); [apply complete_arg_value_done_good; assumption|apply cok_good].
+Qed.
+
+Lemma parse_opt_value_ok o count : a_num o <> None ->
+  exists st, parse_opt_value o count = Some st /\ st_ok st.
+Proof.
+  unfold parse_opt_value. intros H. destruct (a_num o) as [r|] eqn:E; [|tauto].
+  eexists; split; [reflexivity|]. destruct (count <? vmax r); cbn; [rewrite E; discriminate|exact I].
+Qed.
+
+Lemma parse_positional_ok c pi esc st : st_ok st ->
+  exists st' pi', parse_positional c pi esc st = Some (st', pi') /\ st_ok st'.
+Proof.
+  intros Hst. unfold parse_positional.
+  set (na := match find_pos c pi with Some a => match a_num a with Some r => vmax r | None => 1 end | None => 1 end).
+  destruct st as [|p n|o cnt].
+  - destruct (1 <? na); [|destruct esc]; do 2 eexists; split; try reflexivity; exact I.
+  - destruct (p =? pi).
+    + destruct (n + 1 <? na); [|destruct esc]; do 2 eexists; split; try reflexivity; exact I.
+    + destruct (1 <? na); [|destruct esc]; do 2 eexists; split; try reflexivity; exact I.
+  - destruct (parse_opt_value_ok o cnt Hst) as [st' [E Hs]]. rewrite E. do 2 eexists; split; [reflexivity|exact Hs].
+Qed.
+
+(** one step of the shadow parse: no panic, no fuel exhaustion; the next node is the same or a
+    subcommand; the state invariant is kept *)
+Lemma shadow_step_ok w cur pi esc st : args_ok cur -> st_ok st ->
+  exists cur' pi' esc' st', shadow_step w cur pi esc st = SNext cur' pi' esc' st' /\
+    (cur' = cur \/ In cur' (c_subs cur)) /\ st_ok st'.
+Proof.
+  intros Hok Hst. unfold shadow_step.
+  destruct (parse_positional_ok cur pi esc st Hst) as [stp [pip [Ep Hp]]]. rewrite Ep.
+  destruct (if _ && utf8_valid w then find_subcommand cur w else None) as [nc|] eqn:Es.
+  { do 4 eexists. split; [reflexivity|]. split; [|exact I]. right.
+    destruct (_ && utf8_valid w); [|discriminate]. unfold find_subcommand in Es.
+    apply find_some in Es. tauto. }
+  destruct esc. { do 4 eexists; split; [reflexivity|]; split; [left; reflexivity|assumption]. }
+  destruct (is_escape w). { do 4 eexists; split; [reflexivity|]; split; [left; reflexivity|exact I]. }
+  destruct (opt_allows_hyphen st w) eqn:Eh.
+  { destruct st as [|p n|o cnt];
+      try (unfold opt_allows_hyphen in Eh; destruct w as [|b t]; [discriminate|];
+           rewrite andb_false_r in Eh; discriminate).
+    destruct (parse_opt_value_ok o cnt Hst) as [st' [E Hs]]. rewrite E.
+    do 4 eexists; split; [reflexivity|]; split; [left; reflexivity|assumption]. }
+  destruct (to_long w) as [[[flag u] value]|].
+  { destruct u; [|do 4 eexists; split; [reflexivity|]; split; [left; reflexivity|exact I]].
+    destruct (find_long_visible cur flag) as [o|] eqn:Eo.
+    - pose proof (args_ok_num _ _ Hok (find_long_visible_in _ _ _ Eo)) as Hn.
+      destruct (a_num o) as [r|] eqn:En; [|tauto].
+      destruct (r_takes_values r && is_none value);
+        do 4 eexists; (split; [reflexivity|]); (split; [left; reflexivity|]); cbn; try exact I.
+      rewrite En; discriminate.
+    - destruct (pos_allows_hyphen cur pi);
+        do 4 eexists; (split; [reflexivity|]); (split; [left; reflexivity|]); [assumption|exact I]. }
+  destruct (to_short w) as [short|].
+  { destruct (parse_shortflags_safe cur short Hok) as [Hpn Hfn].
+    destruct (parse_shortflags cur short) as [| |leading [o|] short'] eqn:E; try tauto.
+    - unfold parse_shortflags in E. apply parse_shortflags_loop_opt in E.
+      pose proof (args_ok_num _ _ Hok E) as Hn.
+      destruct (is_none (next_value_os short'));
+        do 4 eexists; (split; [reflexivity|]); (split; [left; reflexivity|]); cbn; try exact I. assumption.
+    - destruct (utf8_valid w && forallb (has_short cur) (decode leading)).
+      { do 4 eexists; split; [reflexivity|]; split; [left; reflexivity|exact I]. }
+      destruct (pos_allows_hyphen cur pi);
+        do 4 eexists; (split; [reflexivity|]); (split; [left; reflexivity|]); [assumption|exact I]. }
+  destruct st as [|p n|o cnt].
+  - do 4 eexists; split; [reflexivity|]; split; [left; reflexivity|assumption].
+  - do 4 eexists; split; [reflexivity|]; split; [left; reflexivity|assumption].
+  - destruct (parse_opt_value_ok o cnt Hst) as [st' [E Hs]]. rewrite E.
+    do 4 eexists; split; [reflexivity|]; split; [left; reflexivity|assumption].
+Qed.
+
+(** the walk: ends, or stands at a node reachable from the start with a good state *)
+Lemma shadow_walk_ok : forall items cursor target cur pi esc st,
+  tree_all args_ok cur -> st_ok st ->
+  shadow_walk items cursor target cur pi esc st = WEnd \/
+  exists w cur' pi' st' esc', shadow_walk items cursor target cur pi esc st = WAt w cur' pi' st' esc' /\
+    reach cur cur' /\ st_ok st'.
+Proof.
+  induction items as [|w rest IH]; intros cursor target cur pi esc st Ht Hst; cbn [shadow_walk].
+  - left; reflexivity.
+  - destruct (sat_add cursor 1 =? target).
+    + right. do 5 eexists. split; [reflexivity|]. split; [constructor|assumption].
+    + destruct (shadow_step_ok w cur pi esc st (tree_all_here _ _ Ht) Hst)
+        as [cur' [pi' [esc' [st' [E [Hc Hs]]]]]].
+      rewrite E.
+      assert (Ht' : tree_all args_ok cur') by (destruct Hc as [->|Hin]; [assumption|eapply tree_all_sub; eauto]).
+      destruct (IH (sat_add cursor 1) target cur' pi' esc' st' Ht' Hs) as [H|[w' [c2 [p2 [s2 [e2 [H [Hr Hs2]]]]]]]].
+      * left; assumption.
+      * right. do 5 eexists. split; [exact H|]. split; [|assumption].
+        destruct Hc as [->|Hin]; [assumption|econstructor; eauto].
+Qed.
+
+Lemma complete_built_good tbl b args i : tree_all args_ok b -> ~ bad (complete_built tbl b args i).
+Proof.
+  intros Ht. unfold complete_built, start_walk.
+  destruct (shadow_walk_ok
+     (skipn (N.to_nat (if is_set s_no_binary_name b then 0 else 1)) args)
+     (if is_set s_no_binary_name b then 0 else 1)
+     (sat_add (N.min i (N.of_nat (length args))) 1) b 1 false ValueDone Ht I)
+    as [H|[w [c [p [s [e [H [Hr Hs]]]]]]]];
+    rewrite H.
+  - intros [[x Hx]|Hx]; discriminate.
+  - apply complete_arg_good; [|assumption]. apply (tree_all_here args_ok). eapply tree_all_reach; eauto.
+Qed.
+
+(** C18_total *)
+Theorem total : forall tbl c args i site, complete_model tbl c args i <> CPanic site.
+Proof.
+  intros tbl c args i site. unfold complete_model.
+  destruct (build_full (build_fuel c) c) eqn:E; try discriminate.
+  intros H. apply (complete_built_good tbl c0 args i (build_full_ok _ _ _ E)). left. eexists; eauto.
+Qed.
+
+(** the only fuel is that of [build_full]: the engine proper never runs out *)
+Theorem built_no_fuel : forall tbl f c b args i,
+  build_full f c = BOk b -> complete_built tbl b args i <> CFuel.
+Proof.
+  intros tbl f c b args i E H.
+  apply (complete_built_good tbl b args i (build_full_ok _ _ _ E)). right. exact H.
+Qed.
